@@ -1142,3 +1142,34 @@ def r8f_proximity_precedence(ctx):
                            "fixtures are ranked by their origin flags" % f.id.split("::")[-1])
     r.floor("proximity ranking functions", n, 1)
     return r
+
+
+def r8g_config_text_goes_to_the_parser(ctx):
+    r = Result("R8g", "wherever the configuration text is handed to the TOML deserialiser, the deserialiser call post-dominates "
+                      "the point where that text becomes available (the function entry for a parameter, the defining block "
+                      "otherwise): no textual pre-test of the content (a `contains(\"[tool...]\")` fast path) decides that the "
+                      "defaults apply -- TOML spells one table in many ways (quoted keys, spaces, inline tables, dotted keys), so a "
+                      "textual test drops valid configuration, including the disabled diagnostic codes")
+    from .r7 import _root_local
+    crate = ctx.bin
+    n = 0
+    for f in crate.real_fns():
+        for bb, c in f.calls():
+            if not re.match(r"toml::(de::)?from_str$|<toml::.* as std::str::FromStr>::from_str$", c.get("res") or "") or not c["args"]:
+                continue
+            n += 1
+            key = "R8g|%s" % f.id
+            l = _root_local(f, c["args"][0])
+            starts = set()
+            for d in f.whole_defs(l) if l is not None else []:
+                starts.add(0 if d[0] == "arg" else d[1])
+            if not starts:
+                starts = {0}
+            pd = f.postdominators()
+            if all(bb == s0 or bb in pd.get(s0, set()) for s0 in starts):
+                r.ok(sample={"config_parser": f.id})
+            else:
+                r.violate(key, "%s can return without handing the configuration text to the TOML deserialiser: some path decides "
+                               "on the configuration from the raw text" % f.id)
+    r.floor("TOML deserialiser calls", n, 1)
+    return r
